@@ -51,9 +51,9 @@ func init() {
 				"datamatrix": "see C02 tasks shared here (contents of 0..2 free bytes, shapes, size hints) when registered",
 			}
 		},
-		Exhaustive: func(tier string) bool { return false },
-		Outside:    []string{"contents longer than 2-3 free bytes (e.g. 81 / 4000 characters with all bytes free); hint values of undocumented types beyond the samples; CHARACTER_SET / GS1_FORMAT / FORCE_CODE_SET hints", "QR Reed-Solomon parity generation (stubbed; C04)"},
-		Stubs:      []string{"generateECBytes -> verifStubEC in the QR tasks", "x/text encoders on symbolic content: UTF-8 / ISO-8859-1 models"},
+		Exhaustive:  func(tier string) bool { return false },
+		Outside:     []string{"contents longer than 2-3 free bytes (e.g. 81 / 4000 characters with all bytes free); hint values of undocumented types beyond the samples; CHARACTER_SET / GS1_FORMAT / FORCE_CODE_SET hints", "QR Reed-Solomon parity generation (stubbed; C04)"},
+		Stubs:       []string{"generateECBytes -> verifStubEC in the QR tasks", "x/text encoders on symbolic content: UTF-8 / ISO-8859-1 models"},
 		Assumptions: commonAssumptions,
 	}
 }
